@@ -176,15 +176,16 @@ def load_api():
 
     return dict(Argument=Argument, Option=Option, ApplicationConfig=ApplicationConfig, CommandConfig=CommandConfig,
                 DefaultApplicationConfig=DefaultApplicationConfig, ConsoleApplication=ConsoleApplication,
-                DefaultStyleSet=DefaultStyleSet, DefaultResolver=DefaultResolver)
+                DefaultStyleSet=DefaultStyleSet, DefaultResolver=DefaultResolver, shared_resolver=DefaultResolver())
 
 
-def build_app(tree, api, log=None, default_config=False, name="app", version="1.2.3", io_factory=None, tweak=None):
+def build_app(tree, api, log=None, default_config=False, name="app", version="1.2.3", io_factory=None, tweak=None, share_resolver=False):
     if default_config:
         cfg = api["DefaultApplicationConfig"](name, version)
     else:
         cfg = api["ApplicationConfig"](name, version)
-        cfg.set_command_resolver(api["DefaultResolver"]())
+        # a resolver is a stateless service: the same object may serve several applications
+        cfg.set_command_resolver(api["shared_resolver"] if share_resolver else api["DefaultResolver"]())
         cfg.set_style_set(api["DefaultStyleSet"]())
     cfg.set_catch_exceptions(True)
     cfg.set_terminate_after_run(False)
